@@ -38,6 +38,9 @@ pub enum Letters {
     /// small alphabet around the rules that cut a pipeline into sub-queries: a constant / computed column,
     /// filter, sort, take, joins of every side, aggregates over the newest column — enumerated one step deeper
     Split,
+    /// the order-relevant part of Split (sorts, take, inner/left join, filter, group-aggregate, projection):
+    /// small enough for depth 4
+    OrderSplit,
 }
 
 #[derive(Clone, Debug)]
@@ -116,6 +119,41 @@ pub fn pipeline_ordered(p: &Pipeline, prog: &Program) -> bool {
     o
 }
 
+fn menu_order_split(st: &GenState, cfg: &GenCfg) -> Vec<Step> {
+    let f = &st.frame;
+    let r = f.referencable();
+    let mut m = vec![];
+    let (Some(&first), Some(&last)) = (r.first(), r.last()) else { return m };
+    m.push(Step::Sort(vec![(true, E::Col(first))]));
+    if last != first {
+        m.push(Step::Sort(vec![(false, E::Col(last))]));
+        m.push(Step::Select(vec![col_item(first), col_item(last)]));
+    }
+    if st.ordered {
+        m.push(Step::Take(Some(1), Some(2)));
+    }
+    m.push(Step::Filter(E::bin(Op::Gt, E::Col(first), E::Int(1))));
+    if st.joins < cfg.max_joins && f.cols.len() <= 4 {
+        let n_a = f.cols.iter().filter(|c| c.name.as_deref() == Some("a")).count();
+        if n_a == 1 && (0..f.cols.len()).any(|i| f.cols[i].name.as_deref() == Some("a") && f.refname(i).is_some()) {
+            for side in [Side::Inner, Side::Left] {
+                m.push(Step::Join { side, right: Source::Sub(Box::new(closed_u())), alias: Some("r".into()), cond: Cond::EqName("a".into()) });
+            }
+        }
+    }
+    if last != first && !f.cols.iter().any(|c| matches!(c.name.as_deref(), Some("s"))) {
+        let (_, map) = group_inner_frame(f, &[first]);
+        if let Some(pos) = map.iter().position(|&i| i == last) {
+            m.push(Step::Group { keys: vec![first], inner: vec![Step::Aggregate(vec![("s".into(), Agg::Sum, Some(pos))])] });
+        }
+        let (_, map) = group_inner_frame(f, &[last]);
+        if let Some(pos) = map.iter().position(|&i| i == first) {
+            m.push(Step::Group { keys: vec![last], inner: vec![Step::Aggregate(vec![("s".into(), Agg::Sum, Some(pos))])] });
+        }
+    }
+    m
+}
+
 fn menu_split(st: &GenState, cfg: &GenCfg) -> Vec<Step> {
     let f = &st.frame;
     let r = f.referencable();
@@ -182,6 +220,9 @@ fn menu_split(st: &GenState, cfg: &GenCfg) -> Vec<Step> {
 pub fn menu(st: &GenState, prog: &Program, cfg: &GenCfg) -> Vec<Step> {
     if cfg.letters == Letters::Split {
         return menu_split(st, cfg);
+    }
+    if cfg.letters == Letters::OrderSplit {
+        return menu_order_split(st, cfg);
     }
     let f = &st.frame;
     let r: Vec<usize> = f.referencable();
